@@ -14,7 +14,8 @@ CHECK = {'title': 'hwmon entries bind to the device the user named, or fail clea
          '(thorough 8) shapes; 4 chips (thorough): named chip all 64 x others from the catalogue of 4. For every tree ALL permutations of the chip '
          'enumeration order x 111 entries: platform spelled as full id / chip name / upper-case chip name x (fan by index or rpmChannel 1..4(missing) x '
          'pwmChannel default,1,2,3; sensor index 1..4(missing)); unknown platform (fan by index, by channel, sensor); plus one configuration with one '
-         'fan and one sensor entry per chip. Oracle: reference binder (chip = the one whose platform contains the pattern case-insensitively; index = '
+         'fan and one sensor entry per chip; for 1- and 2-chip trees every sensor entry is also taken through a YAML file and the real getSensor of '
+         '`fan2go sensor -i <id>` (its own copy of the matching loop; weaker oracle: no panic, existing device bound exactly, never another existing file). Oracle: reference binder (chip = the one whose platform contains the pattern case-insensitively; index = '
          '1-based position among the chip\'s fans / temperature inputs with an input file; RPM from the rpm channel, PWM and enable from the pwm channel, '
          'default = rpm channel): the registered HwMonFan/HwmonSensor carries exactly these paths and GetRpm/GetPwm/GetValue return the values stored in '
          'those files; identical outcome for every enumeration order; a non-existing device gives an error naming the entry id - no panic, no binding. '
@@ -25,5 +26,5 @@ CHECK = {'title': 'hwmon entries bind to the device the user named, or fail clea
                  'prometheus.DefaultRegisterer is replaced by a fresh registry per case; fan/sensor registries are keyed by id and overwritten per case'],
  'level_text': 'complete enumeration of the stated finite space of (hwmon tree, enumeration order, entry) on the real discovery and binding code',
  'level_note': 'bounded: channels/indices 1..3 (+4 as the missing one), at most 4 chips, shapes of the not-named chips from a catalogue for 3 and 4 chips; '
-               'only InitializeObjects is exercised (the `fan2go fan/sensor` CLI lookups use their own copies of the matching loop)',
+               'the `fan2go fan` CLI lookup (cmd/fan getFan, which ignores the error of the matching function) is not exercised',
  'runs': [{'pkg': 'cmd/sensor', 'test': 'TestVX_C17', 'shards_quick': 16, 'shards_thorough': 16}]}
